@@ -238,6 +238,8 @@ func ruleFlagImplications(w *World, r *RuleResult) {
 					r.ok(key, w.instrPos(u.site), "Inexact is already set on every path to this site", true)
 				case name == "(Condition).negateOverflowFlags":
 					r.ok(key, w.instrPos(u.site), "mask/test inside negateOverflowFlags", false)
+				case mustPassOK(u.site, orsBit(inexact)):
+					r.ok(key, w.instrPos(u.site), "Inexact is or-ed in on every path from this site (the bits are added one by one)", true)
 				default:
 					r.bad(key, w.instrPos(u.site), "Overflow can be raised without Inexact")
 				}
@@ -440,6 +442,9 @@ func ruleNoFlagDropped(w *World, r *RuleResult) {
 							if lit {
 								continue
 							}
+						}
+						if cc, ok := gc.Tuple.(*ssa.Call); ok && !w.isGoErrorCall(cc) && w.returnsLiteralFlags(callee(cc)) {
+							continue // a helper that delivers a literal flag set of its own (set NaN, goError(InvalidOperation))
 						}
 						if cc, ok := gc.Tuple.(*ssa.Call); ok && w.isGoErrorCall(cc) {
 							flagsArg := cc.Common().Args[len(cc.Common().Args)-1]
@@ -775,4 +780,49 @@ func (w *World) condSink(f *ssa.Function, depth int) bool {
 		}
 	}
 	return true
+}
+
+// returnsLiteralFlags: an unexported helper without a Condition parameter whose every return delivers a
+// literal flag set, directly or through goError(<literal>) — "set d to NaN and report InvalidOperation".
+func (w *World) returnsLiteralFlags(h *ssa.Function) bool {
+	if h == nil || !w.inPkg(h) || h.Object() == nil || h.Object().Exported() || len(h.Blocks) == 0 {
+		return false
+	}
+	fi := w.condResultIndex(h)
+	if fi < 0 {
+		return false
+	}
+	for _, p := range h.Params {
+		if typeIs(p.Type(), apdPath, "Condition") && !isPointer(p.Type()) {
+			return false
+		}
+	}
+	n := 0
+	for _, b := range h.Blocks {
+		rt, isRet := b.Instrs[len(b.Instrs)-1].(*ssa.Return)
+		if !isRet || fi >= len(rt.Results) {
+			continue
+		}
+		n++
+		v := rt.Results[fi]
+		if _, isK := condBits(v); isK {
+			continue
+		}
+		ex, isEx := v.(*ssa.Extract)
+		if !isEx {
+			return false
+		}
+		cc, isCall := ex.Tuple.(*ssa.Call)
+		if !isCall || !w.isGoErrorCall(cc) {
+			return false
+		}
+		flagsArg := cc.Common().Args[len(cc.Common().Args)-1]
+		if w.calleeName(cc) == "(Condition).GoError" {
+			flagsArg = cc.Common().Args[0]
+		}
+		if _, isK := condBits(flagsArg); !isK {
+			return false
+		}
+	}
+	return n > 0
 }
